@@ -161,7 +161,7 @@ def correspond(ctx, scale):
         for wi in range(nwalk):
             mod = f['mk']()
             dist['walks'] += 1
-            alphabet = ['train', 'train', 'eval', 'eval'] + (['frozen', 'frozen', 'ce-eval', 'ce-frozen'] if f['freeze'] else []) + (['decode'] if f['decode'] else [])
+            alphabet = ['train', 'train', 'train-bwd', 'eval', 'eval'] + (['frozen', 'frozen', 'ce-eval', 'ce-frozen'] if f['freeze'] else []) + (['decode'] if f['decode'] else [])
             ops = [rng.choice(alphabet) for _ in range(rng.choice([5, 8, 12]))]
             if wi % 2 == 1:
                 ops = ['train', 'train'] + ops
@@ -186,6 +186,19 @@ def correspond(ctx, scale):
                             continue
                         f['decode'](mod, last_idx)
                         dist['decode_ops'] += 1
+                        ret = None
+                    elif op == 'train-bwd':
+                        # an ordinary training step of the CALLER: forward, backward of the returned loss - gradients are left on the parameters
+                        # (no zero_grad yet), which a following frozen / evaluation call must not consume
+                        mod.train(True)
+                        torch.manual_seed(seed)
+                        random.seed(seed)
+                        xg = x.clone().requires_grad_(True)
+                        rb = mod(xg)
+                        fl = [t_ for t_ in (rb if isinstance(rb, tuple) else (rb,)) if isinstance(t_, torch.Tensor) and t_.dtype.is_floating_point and t_.requires_grad]
+                        if fl:
+                            sum(t_.sum() for t_ in fl).backward()
+                        dist['train_backward_ops'] = dist.get('train_backward_ops', 0) + 1
                         ret = None
                     elif op in ('ce-eval', 'ce-frozen'):
                         # per-call option `indices=` (cross-entropy to target codes) in evaluation mode / with a frozen codebook: a pure call as well
@@ -214,7 +227,7 @@ def correspond(ctx, scale):
                     failures.append({'key': f'{f["name"]}:{op}:exception:{type(ex).__name__}', 'what': f'{f["name"]} op {op} after {trace}: {ex!r}',
                                      'case': dict(name=f['name'], ops=trace)})
                     break
-                if op == 'train':
+                if op in ('train', 'train-bwd'):
                     trained = True
                     dist['train_ops'] += 1
                     continue
